@@ -28,7 +28,12 @@ PROPS = {
         'modules': ['CDVProofs.Blocks', 'CDVProofs.Props.C13'],
         'eval_keys': ['code_objects'], 'rule': PROGRAM_RULE},
     'C09': {'theorems': [], 'eval_keys': ['code_objects'], 'rule': PROGRAM_RULE},
-    'C14': {'theorems': [], 'eval_keys': ['code_objects'], 'rule': PROGRAM_RULE},
+    'C14': {
+        'claimed': True,
+        'level_text': "Proved for every CodeData (no bound; nested code by induction on depth): whenever to_code's operand tables can be built, iterating the data yields exactly the nested CodeData of the constants table that to_code emits, in table order - each entry once whether it is loaded by one instruction, by several, or by none (C14_iter_is_constants_table); if to_code succeeds, encoding the iterated CodeData one by one gives exactly the code objects in co_consts of the result (C14_iter_matches_co_consts); all_code_data starts with the object itself (C14_all_starts_with_self). That the re-encoded constants are the original code object's constants (the C01 round trip) and that each yielded element equals the stand-alone decoding of the nested code object are not theorems: they are decided by the correspondence (model iter = implementation on every decoded object) and the direct oracle against a recursive walk of co_consts with stand-alone decoding, including dead-code and cross-scope-equal-lambda programs.",
+        'theorems': ['CDV.Props.C14.C14_iter_is_constants_table', 'CDV.Props.C14.C14_iter_matches_co_consts', 'CDV.Props.C14.C14_all_starts_with_self'],
+        'modules': ['CDVProofs.Iter', 'CDVProofs.Props.C14'],
+        'eval_keys': ['code_objects'], 'rule': PROGRAM_RULE},
     'C04': {
         'claimed': True,
         'level_text': "Proved for all headers (any counts/flags/variable tables with distinct parameter names): args_from_input succeeds and Args.parameters is exactly CPython's binding of co_varnames in inspect.signature order (C04_signature, against Spec.sigCore, which is itself compared with inspect.signature on the real interpreters every run). Docstring, function kind, len(args) and 'type is None for modules/classes' are decided by the correspondence and the direct oracle against inspect / function objects over all signature shapes x function kinds x docstring shapes.",'theorems': ['CDV.Props.C04.C04_signature'], 'modules': ['CDVProofs.Args', 'CDVProofs.Props.C04'], 'eval_keys': ['code_objects'], 'rule': 'signature shapes x function kinds x docstring shapes x optimize, plus all scopes of the program corpus'},
